@@ -480,7 +480,8 @@ def _template_program(what, body, norm, inplace):
             f = norm(st.value.func)
             if f == 'self._check_other_folding':
                 if len(st.value.args) != 1 or st.value.keywords: raise TranslateError('%s: %s' % (what, norm(st)))
-                return '.check %s' % arg(st.value.args[0])
+                a = arg(st.value.args[0]); calls.append(norm(st.value))
+                return '.check %s' % a
             a = dataop(st.value)
             if a is not None:
                 if not inplace: raise TranslateError('%s: result of %s is discarded' % (what, norm(st)))
@@ -570,7 +571,7 @@ def gen_operators(cls, src, path, new_defaults):
     if [a.arg for a in fn.args.args] != ['self', 'other'] or fn.args.defaults or fn.args.vararg or fn.args.kwarg:
         raise TranslateError('binary template: signature')
     b = fn.body
-    prog, notes, used, _ = _template_program('binary template', b, norm, inplace=False)
+    prog, notes, used, bcalls = _template_program('binary template', b, norm, inplace=False)
     rest = [(k, s) for k, s in enumerate(b) if k not in used]
     # pop_ids rule
     if len(rest) < 4 or norm(rest[0][1]) != 'newpop_ids=self.pop_ids':
@@ -624,7 +625,7 @@ def gen_operators(cls, src, path, new_defaults):
     out.append('/-- binary template: the constructor copies data and mask (`copy` keyword as passed, or the default of Spectrum.__new__) -/')
     out.append('def binopCopies : Bool := %s' % (new_defaults['copy'] if cp is None else cp.lower()))
     if ctor_target != 'outfs' or norm(b[-1]) != 'returnoutfs': raise TranslateError('binary template: return')
-    _no_side_effects('binary template', b, store_ok=lambda t: isinstance(t, ast.Name), norm=norm)
+    _no_side_effects('binary template', b, store_ok=lambda t: isinstance(t, ast.Name), norm=norm, calls_ok=tuple(bcalls))
     out += program_def('binaryProgram', 'binary template', prog, notes, bn)
     # ---- in-place template
     fn = ast.parse(inp_t % {'method': '__OP__'}).body[0]
